@@ -2,7 +2,10 @@ package rules
 
 import (
 	"fmt"
+	"go/ast"
 	"go/constant"
+	"math/big"
+	"sort"
 
 	"cachelint/poly"
 	"go/token"
@@ -159,7 +162,7 @@ func (c *Ctx) c07Index(b BK) {
 							bad = true
 						}
 					case strings.HasSuffix(op, ".Restore"):
-						if !(k.Kind == pw.KConv && isCopyConv(k) && isEntryField(k.Src, "K") && so == "Store" && entryOf(k.Src) == pointee(ev.Args[1])) {
+						if !(k.Kind == pw.KConv && isCopyConv(k) && isEntryField(k.Src, "K") && (so == "Store" || so == "LoadOrStore" || so == "Swap") && len(ev.Args) > 1 && entryOf(k.Src) == pointee(ev.Args[1])) {
 							r.Bad("R07.1", op, "restore-index", c.Pos(ev.Pos), "restored entry is not stored under string of its own key K", shortTrace(p))
 							bad = true
 						}
@@ -641,6 +644,157 @@ func iterations(p *pw.Path) []*iterGroup {
 	return out
 }
 
+// counterDiscipline: Len of a sync.Map backend returns the atomic counter field cf. The counter equals the number of stored
+// entries only if every change of the map is paired with evidence: +1 exactly with a LoadOrStore that did not find the key, −1
+// exactly with a LoadAndDelete that found it; a plain Store only replaces a key a LoadOrStore just found; no plain Delete. Checked
+// on every path of every method of the backend and its wrapper (helpers inlined).
+func (c *Ctx) counterDiscipline(b BK, rule string, cf *types.Var) bool {
+	r := c.R
+	ok := true
+	nSites := 0
+	var methods []string
+	c.eachFuncDecl(func(fd *ast.FuncDecl, fn *types.Func) {
+		sig, _ := fn.Type().(*types.Signature)
+		if sig == nil || sig.Recv() == nil {
+			return
+		}
+		if rn := namedTypeName(sig.Recv().Type()); rn != b.Name && rn != b.Wrapper {
+			return
+		}
+		touches := false
+		ast.Inspect(fd.Body, func(n ast.Node) bool {
+			if sel, ok := n.(*ast.SelectorExpr); ok {
+				switch sel.Sel.Name {
+				case "Store", "LoadOrStore", "Delete", "LoadAndDelete", "Swap", "CompareAndSwap", "CompareAndDelete", cf.Name():
+					touches = true
+				}
+			}
+			return true
+		})
+		if touches {
+			methods = append(methods, strings.TrimPrefix(pw.FuncName(fn), "cache."))
+		}
+	})
+	sort.Strings(methods)
+	for _, m := range methods {
+		run := c.bk(b, m, false)
+		if run.err != nil {
+			r.Unknown(rule, m, run.err.Error())
+			ok = false
+			continue
+		}
+		reported := map[string]bool{}
+		bad := func(p *pw.Path, kind string, pos token.Pos, msg string) {
+			ok = false
+			if !reported[kind] {
+				reported[kind] = true
+				r.Bad(rule, m, "len-counter:"+kind, c.Pos(pos), msg, shortTrace(p))
+			}
+		}
+		for _, p := range run.paths {
+			type tally struct{ incs, decs, fresh, removed int }
+			var t tally
+			var foundKeys []*pw.Val
+			for _, ev := range p.Events {
+				switch {
+				case ev.Kind == pw.EvCall && ev.Role == "Std:atomic.AddInt64" && len(ev.Args) == 2 && ev.Args[0] != nil && ev.Args[0].Field == cf:
+					nSites++
+					cst, isConst := poly.Of(ev.Args[1], nil).IsConst()
+					switch {
+					case isConst && cst.Cmp(big.NewRat(1, 1)) == 0:
+						t.incs++
+					case isConst && cst.Cmp(big.NewRat(-1, 1)) == 0:
+						t.decs++
+					default:
+						bad(p, "counter-step", ev.Pos, "the entry counter is changed by something other than ±1: not modelled")
+					}
+				case ev.Kind == pw.EvCall && (ev.Role == "Std:atomic.StoreInt64" || ev.Role == "Std:atomic.SwapInt64") && len(ev.Args) >= 1 && ev.Args[0] != nil && ev.Args[0].Field == cf:
+					bad(p, "counter-step", ev.Pos, "the entry counter is overwritten: not modelled")
+				case syncMapOp(ev) == "LoadOrStore" && len(ev.Results) == 2:
+					nSites++
+					if tr, known := p.Truth(ev.Results[1]); known && !tr {
+						t.fresh++
+					} else if known && tr && len(ev.Args) > 0 {
+						foundKeys = append(foundKeys, ev.Args[0])
+					} else if !known {
+						bad(p, "loadorstore-untested", ev.Pos, "LoadOrStore's loaded result is not tested: whether an entry was added is unknown to the counter")
+					}
+				case syncMapOp(ev) == "LoadAndDelete" && len(ev.Results) == 2:
+					nSites++
+					if tr, known := p.Truth(ev.Results[1]); known && tr {
+						t.removed++
+					} else if !known {
+						bad(p, "loadanddelete-untested", ev.Pos, "LoadAndDelete's loaded result is not tested: whether an entry was removed is unknown to the counter")
+					}
+				case syncMapOp(ev) == "Store" || syncMapOp(ev) == "Swap":
+					nSites++
+					same := false
+					for _, k := range foundKeys {
+						if len(ev.Args) > 0 && sameKeyVal(k, ev.Args[0]) {
+							same = true
+						}
+					}
+					if !same {
+						bad(p, "store-may-add-uncounted", ev.Pos, "a plain Store may add a new key (or replace one): the counter is not told which")
+					}
+				case syncMapOp(ev) == "Delete" || syncMapOp(ev) == "CompareAndDelete":
+					nSites++
+					bad(p, "delete-uncounted", ev.Pos, "a plain Delete removes an entry (or nothing): the counter is not told which")
+				}
+			}
+			if t.incs != t.fresh {
+				bad(p, "counter-inc-without-new-entry", p.RetPos, fmt.Sprintf("on this path the counter is incremented %d time(s) but %d LoadOrStore call(s) added a new key", t.incs, t.fresh))
+			}
+			if t.decs != t.removed {
+				bad(p, "counter-dec-without-removal", p.RetPos, fmt.Sprintf("on this path the counter is decremented %d time(s) but %d LoadAndDelete call(s) removed an entry", t.decs, t.removed))
+			}
+		}
+	}
+	if nSites == 0 {
+		r.Unknown(rule, b.Name+".Len:counter", "no maintenance site of the entry counter found")
+		return false
+	}
+	if ok {
+		r.OK(rule, b.Name+".Len:counter", fmt.Sprintf("entry counter follows evidence of insertion/removal at %d sites in %d methods", nSites, len(methods)))
+	}
+	return ok
+}
+
+// isLenObligation: obligations of R07.4 that concern Len (the scan or the maintained counter).
+func isLenObligation(o *coreObl) bool {
+	return o.Rule == "R07.4" && (strings.HasSuffix(o.Construct, ".Len") || strings.Contains(o.Construct, ".Len:") || strings.HasPrefix(o.What, "len-counter:"))
+}
+
+// sameKeyVal: two evaluations of the same key expression (the same value, the same conversion of it, the same field of the same
+// variable — also across a havoc of that variable's other contents).
+func sameKeyVal(a, b *pw.Val) bool {
+	for i := 0; i < 5; i++ {
+		if a == b {
+			return true
+		}
+		if a == nil || b == nil {
+			return false
+		}
+		if a.Obj != nil && a.Obj == b.Obj && (a.Kind == pw.KHavoc || a.Kind == pw.KAlloc || a.Kind == pw.KZero) && (b.Kind == pw.KHavoc || b.Kind == pw.KAlloc || b.Kind == pw.KZero) {
+			return true
+		}
+		if a.Kind != b.Kind {
+			return false
+		}
+		switch a.Kind {
+		case pw.KConv:
+		case pw.KField:
+			if a.Field != b.Field {
+				return false
+			}
+		default:
+			return false
+		}
+		a, b = a.Src, b.Src
+	}
+	return false
+}
+
 // emptiesShard: the event assigns a shard's map a fresh empty map or nil (lazy re-allocation is the writers' business, see C13 R13.4).
 func emptiesShard(ev *pw.Event) bool {
 	if ev.Kind != pw.EvFieldWrite || ev.Field == nil || ev.Field.Name() != "data" || ev.Value == nil {
@@ -819,8 +973,19 @@ func (c *Ctx) c07Batch(b BK) {
 					urv = urv.Src
 				}
 				if !okRet && urv != nil && urv.Kind == pw.KCall && urv.Ev != nil && strings.HasPrefix(urv.Ev.Role, "Std:atomic.") {
-					r.Unknown("R07.4", op, "Len returns a separately maintained atomic counter instead of counting the storage: the counter's maintenance is not modelled")
-					bad = true
+					// Len returns a separately maintained counter: it equals the number of stored entries only under the
+					// evidence discipline checked here
+					var cf *types.Var
+					if len(urv.Ev.Args) == 1 && urv.Ev.Args[0] != nil {
+						cf = urv.Ev.Args[0].Field
+					}
+					if b.Sharded || cf == nil || !c.counterDiscipline(b, "R07.4", cf) {
+						if b.Sharded || cf == nil {
+							r.Unknown("R07.4", op, "Len returns a separately maintained atomic counter instead of counting the storage: the counter's maintenance is not modelled for this backend")
+						}
+						bad = true
+					}
+					nIter++
 				} else if !okRet {
 					r.Bad("R07.4", op, "len-result", c.Pos(p.RetPos), "Len does not return its entry counter", shortTrace(p))
 					bad = true
